@@ -381,7 +381,8 @@ def lint_program(rng):
             return e, ('numexpr', e)
         if r < 0.55:
             x = rng.choice([5.0, 0.5, 1e300])
-            e = rng.choice([neg(num(x)), bin_('divide', num(1), num(0)), bin_('divide', num(0), num(0)), bin_('minus', num(1), num(x + 2))])
+            e = rng.choice([neg(num(x)), bin_('divide', num(1), num(0)), bin_('divide', num(0), num(0)), bin_('minus', num(1), num(x + 2)),
+                            neg(num(0)), bin_('multiply', num(0), neg(num(5))), bin_('divide', num(0), neg(num(2))), bin_('divide', neg(num(1)), num(0))])
             return e, ('numexpr', e)
         if r < 0.7:
             s = rng.choice(['hello', '', 'with spaces', 'pun,ct!', 'two\nlines', 'é', ' lead'])
